@@ -315,6 +315,16 @@ def c03(ctx: Ctx) -> None:
     ctx.rule('C03-S7', 'every entry point hands exactly one producer to the thread-safe put, with the adaptor of its kind', 4)
     ctx.rule('C03-S8', 'code that may run on a foreign thread touches the asyncio.Queue only via loop.call_soon_threadsafe', 2)
     ctx.rule('C03-S9', 'the loop-owned completion flag is never mutated directly by any-thread entry points', 1)
+    # (S8, continued) the hand-off is a put_nowait run as a loop callback: it must never find the queue full - QueueFull there is
+    # raised where nobody sees it and the submitted argument is gone
+    qc_ = r.kinds[r.q][1]
+    cap_ = (qc_.args[0] if qc_.args else next((k.value for k in qc_.keywords if k.arg == 'maxsize'), None)) if isinstance(qc_, ast.Call) else None
+    unb_ = cap_ is None or (isinstance(cap_, ast.Constant) and isinstance(cap_.value, (int, float)) and cap_.value <= 0) or (
+        isinstance(cap_, ast.UnaryOp) and isinstance(cap_.op, ast.USub) and isinstance(cap_.operand, ast.Constant))
+    ctx.check('C03-S8', f'the hand-off queue self.{r.q} = {norm(qc_)} is unbounded', f'{FILE}:{getattr(qc_, "lineno", r.init.lineno)}', unb_,
+              'a put that cannot wait never finds it full', 'the queue is bounded while submissions are handed over with put_nowait from a loop callback: '
+              'when the daemon falls behind, QueueFull is raised inside the callback and the argument is lost',
+              construct=construct_key('BUFFER.__init__', 'bounded hand-off queue'))
     ctx.rule('C03-S10', 'no suspension point between setting the flag and the round-loop test; the activation ends after the loop', 2)
     where = f'{FILE}:{r.root.lineno}'
     RS = r.roundset
